@@ -1,10 +1,10 @@
 package main
 
 import (
-	"go/ast"
-	"go/parser"
 	_ "embed"
 	"fmt"
+	"go/ast"
+	"go/parser"
 	"go/token"
 	"go/types"
 	"os"
@@ -681,7 +681,6 @@ func structFieldOf(v ssa.Value, idx int, depth int) ssa.Value {
 	}
 	return nil
 }
-
 
 // typesOnlySig drops the parameter and result names from the text of a signature.
 func typesOnlySig(sig string) string {
